@@ -285,7 +285,32 @@ func ruleR12(c *Ctx) {
 			var res *ast.ForStmt
 			inspectNoLit(f.Body, func(m ast.Node) bool {
 				fs, ok := m.(*ast.ForStmt)
-				if !ok || fs.Cond != nil {
+				if !ok {
+					return true
+				}
+				if fs.Cond != nil {
+					// `for len(observed) != len(declared) { ... }`: the same loop with the test in its header
+					be, ok := unparen(fs.Cond).(*ast.BinaryExpr)
+					if !ok || be.Op != token.NEQ || !isLenCall(fin, be.X) || !isLenCall(fin, be.Y) || fs.Init != nil || fs.Post != nil {
+						return true
+					}
+					for _, op := range ce.Ops {
+						if op.Func == f && op.Kind == OpRecv && regionOf(fs.Body).Contains(op.Node) {
+							if e, ok := chanElem(op.Type); ok && isITrace(e) {
+								// no break out of the loop other than return
+								brk := false
+								inspectNoLit(fs.Body, func(y ast.Node) bool {
+									if b, ok := y.(*ast.BranchStmt); ok && b.Tok == token.BREAK && b.Label != nil {
+										brk = true
+									}
+									return true
+								})
+								if !brk {
+									res = fs
+								}
+							}
+						}
+					}
 					return true
 				}
 				recvsTraces := false
@@ -701,6 +726,14 @@ func ruleR37(c *Ctx) {
 			unsubF = f
 		case "NewRelay$1":
 			relayF = f
+		}
+	}
+	if relayF == nil {
+		// the relay goroutine by role: the root of the goroutine NewRelay launches
+		for _, l := range ce.Launches() {
+			if l.Site.Func != nil && l.Site.Func.Root().Name == "NewRelay" && shortPkg(l.Site.Func.Pkg.PkgPath) == "pkg/tracing" && l.Root != nil {
+				relayF = l.Root
+			}
 		}
 	}
 	if runF == nil || sendF == nil || unsubF == nil || relayF == nil {
